@@ -261,9 +261,7 @@ Proof. split; vm_compute; discriminate. Qed.
    Lemmas/Sound.v (C01) proves reduce() sound for ANY leaf semantics satisfying `leaf_facts`; seven fields
    of that record are facts about QU rotations, HWP and polariser.  For the executable leaf semantics of
    Model/Exec.v (quarter-turn angles, operators evaluated by their own definitions: empty table) they are
-   theorems.  The statements below are the record fields verbatim, except that lf_rot_hwp / lf_rotT_hwp
-   carry the premise that the rotation is square (in = out structure), without which they are false for
-   Exec (exec_lf_rot_hwp_unconditional_refuted). *)
+   theorems.  The statements below are the record fields verbatim. *)
 From Furax Require Import Model.Op Model.Algebra Model.Denote Model.Exec Lemmas.Sound Lemmas.MuellerExecL.
 Theorem exec_rr : forall il sil sol la ir sir sor ra x y1 y,
   lsem (R K ir sir sor ra) x = Some y1 -> lsem (R K il sil sol la) y1 = Some y ->
@@ -271,7 +269,7 @@ Theorem exec_rr : forall il sil sol la ir sir sor ra x y1 y,
 Proof. exact exec_lf_rr. Qed.
 Theorem exec_rrT : forall il sil sol la ir jr sjr sojr ra x y1 y,
   lsem (Wrap ir WQURotT (R K jr sjr sojr ra)) x = Some y1 -> lsem (R K il sil sol la) y1 = Some y ->
-  lsem (R K fresh sojr sojr (qsub la ra)) x = Some y.
+  lsem (R K fresh sjr sjr (qsub la ra)) x = Some y.
 Proof. exact exec_lf_rrT. Qed.
 Theorem exec_rTr : forall il jl sjl sojl la ir sir sor ra x y1 y,
   lsem (R K ir sir sor ra) x = Some y1 -> lsem (Wrap il WQURotT (R K jl sjl sojl la)) y1 = Some y ->
@@ -280,29 +278,21 @@ Proof. exact exec_lf_rTr. Qed.
 Theorem exec_rTrT : forall il jl sjl sojl la ir jr sjr sojr ra x y1 y,
   lsem (Wrap ir WQURotT (R K jr sjr sojr ra)) x = Some y1 ->
   lsem (Wrap il WQURotT (R K jl sjl sojl la)) y1 = Some y ->
-  lsem (R K fresh sojr sojr (qsub (qneg la) ra)) x = Some y.
+  lsem (R K fresh sjr sjr (qsub (qneg la) ra)) x = Some y.
 Proof. exact exec_lf_rTrT. Qed.
-Theorem exec_rot_hwp_square : forall il sil pl r x y1 y, is_a r [CHWP] = true ->
-  xden r x = Some y1 -> lsem (Prim il CQURotation sil sil pl) y1 = Some y ->
-  exists y2, lsem (Wrap fresh WQURotT (Prim il CQURotation sil sil pl)) x = Some y2 /\ xden r y2 = Some y.
-Proof. exact exec_lf_rot_hwp_square. Qed.
-Theorem exec_rotT_hwp_square : forall il lx r x y1 y, is_a r [CHWP] = true ->
-  in_struct lx = out_struct lx ->
+Theorem exec_rot_hwp : forall il sil sol pl r x y1 y, is_a r [CHWP] = true ->
+  xden r x = Some y1 -> lsem (Prim il CQURotation sil sol pl) y1 = Some y ->
+  exists y2, lsem (Wrap fresh WQURotT (Prim il CQURotation sil sol pl)) x = Some y2 /\ xden r y2 = Some y.
+Proof. exact exec_lf_rot_hwp. Qed.
+Theorem exec_rotT_hwp : forall il lx r x y1 y, is_a r [CHWP] = true ->
   xden r x = Some y1 -> lsem (Wrap il WQURotT lx) y1 = Some y ->
   exists y2, xden lx x = Some y2 /\ xden r y2 = Some y.
-Proof. exact exec_lf_rotT_hwp_square. Qed.
+Proof. exact exec_lf_rotT_hwp. Qed.
 Theorem exec_pol_hwp : forall l r x y1 y, is_a l [CLinearPolarizer] = true -> is_a r [CHWP] = true ->
   xden r x = Some y1 -> xden l y1 = Some y -> xden l x = Some y.
 Proof. exact exec_lf_pol_hwp. Qed.
-(* full statement of lf_rot_hwp (no squareness premise): refuted for Exec by a non-square rotation term *)
-Theorem exec_lf_rot_hwp_unconditional_refuted :
-  ~ (forall il sil sol pl r x y1 y, is_a r [CHWP] = true ->
-       xden r x = Some y1 -> lsem (Prim il CQURotation sil sol pl) y1 = Some y ->
-       exists y2, lsem (Wrap fresh WQURotT (Prim il CQURotation sil sol pl)) x = Some y2 /\ xden r y2 = Some y).
-Proof. exact exec_lf_rot_hwp_refuted. Qed.
 Print Assumptions exec_rr.
 Print Assumptions exec_rTrT.
-Print Assumptions exec_rot_hwp_square.
-Print Assumptions exec_rotT_hwp_square.
+Print Assumptions exec_rot_hwp.
+Print Assumptions exec_rotT_hwp.
 Print Assumptions exec_pol_hwp.
-Print Assumptions exec_lf_rot_hwp_unconditional_refuted.
